@@ -238,3 +238,50 @@ def linearity(c):
     for k in range(4):
         c.ensure_eq('C04.linearity.height', c.val(Y3[k]), a * c.val(Y1[k]) + b * c.val(Y2[k]))
         c.ensure_eq('C04.linearity.slope', c.val(U3[k]), a * c.val(U1[k]) + b * c.val(U2[k]))
+
+
+# ---- no stale state: a query after an edit sees the edited prescription ---------------------------
+def _requery_contract(edit):
+    @contract('C04.requery_after.' + edit, [PX + ':Paraxial.f1', PX + ':Paraxial.f2', PX + ':Paraxial.EPL', PX + ':Paraxial.F1',
+                                            PX + ':Paraxial.chief_ray', SG + ':SurfaceGroup.inverted'], ['C04', 'C13'],
+              max_paths=64, groebner_s=40)
+    def rq(c):
+        n, stop = 4, 2
+        lens, v, apv, fy = _setup(c, n, stop, False)
+        px = lens.paraxial
+        # first round of queries (results discarded: they must not be remembered)
+        px.f1(), px.f2(), px.EPL(), px.F1(), px.XPL(), px.chief_ray(), px.marginal_ray()
+        val = c.real('new_value', 1.1, 2.4, positive=True)
+        if edit == 'set_index':
+            lens.set_index(val, 1)
+            v['n'][1] = val
+        elif edit == 'set_radius':
+            lens.set_radius(val * 20, 2)
+            v['R'][2] = val * 20
+        elif edit == 'set_thickness':
+            lens.set_thickness(val, 1)
+            shift = val - (v['z'][2] - v['z'][1])
+            v['z'][2], v['z'][3] = v['z'][2] + shift, v['z'][3] + shift
+        elif edit == 'move_stop':
+            lens.surface_group.surfaces[2].is_stop = False
+            lens.surface_group.surfaces[1].is_stop = True
+            stop = 1
+        A, B, C, D = abcd(v, 1, n - 1)
+        n0, nl = v['n'][0], v['n'][n - 1]
+        c.require(C != 0)
+        c.ensure_eq('C04.requery.f1', c.val(px.f1()), n0 / C)
+        c.ensure_eq('C04.requery.f2', c.val(px.f2()), -nl / C)
+        c.ensure_eq('C04.requery.F1', c.val(px.F1()), n0 * D / C)
+        if stop == 1:
+            c.ensure_eq('C04.requery.EPL', c.val(px.EPL()), 0)
+        else:
+            Af, Bf, Cf, Df = abcd(v, 1, stop, include_last_refraction=False)
+            c.require(Af != 0)
+            c.ensure_eq('C04.requery.EPL', c.val(px.EPL()), n0 * Bf / Af)
+        yb, ub = px.chief_ray()
+        c.ensure_eq('C04.requery.chief_through_stop', c.val(yb[stop]), 0)
+    return rq
+
+
+for _e in ('set_index', 'set_radius', 'set_thickness', 'move_stop'):
+    _requery_contract(_e)
